@@ -277,14 +277,23 @@ func cleanup(dir, prefix string) {
 	}
 }
 
-// guarded call: a panic or a hang of the real code is a violation of its own
+// the whole step (operation + projection) runs under one vh.Guard (see stepGuard); single calls are plain
 func (s *sess) guard(b *behaviour, si int, what string, f func() error) (err error, ok bool) {
-	p, h, msg := vh.Guard(20*time.Second, func() { err = f() })
+	return f(), true
+}
+
+// stepGuard runs one step; a panic or a hang of the real code is a violation of its own. Returns false = stop.
+func (s *sess) stepGuard(b *behaviour, si int, body func() bool) bool {
+	cont := false
+	p, h, msg := vh.Guard(60*time.Second, func() { cont = body() })
 	if p || h {
-		s.res.Violate(s.kind+"."+what+":panic-or-hang", fmt.Sprintf("cfg %s: %s during %s: %s", s.c.Name, what, show(b.Ops[:si+1]), msg), s.ctx(b, si, nil))
-		return nil, false
+		s.res.Violate(s.kind+"."+b.Ops[si].Op+":panic-or-hang", fmt.Sprintf("cfg %s: %s during %s: %s", s.c.Name, b.Ops[si].Op, show(b.Ops[:si+1]), msg), s.ctx(b, si, nil))
+		if h {
+			s.app = nil // abandoned with the stuck goroutine
+		}
+		return false
 	}
-	return err, true
+	return cont
 }
 
 // ---- byte mode (no compression): the appendable must be the byte array ----
@@ -306,121 +315,141 @@ func (s *sess) replayBytes(b *behaviour) {
 		return
 	}
 	for si := range b.Ops {
-		st := &b.Ops[si]
-		s.res.Evaluations++
-		s.res.Count("op:"+st.Op, 1)
-		rew := rewound(b.Ops[:si+1], c.Pre)
-		devs := map[[2]int]*dev{}
-		for i := range st.Devs {
-			devs[[2]int{st.Devs[i].Off, st.Devs[i].N}] = &st.Devs[i]
+		if !s.stepGuard(b, si, func() bool { return s.byteStep(b, si, &prev) }) {
+			return
 		}
-		fail := func(what string, e error) {
-			s.res.Violate(s.kind+"."+what+":error", fmt.Sprintf("cfg %s: %s after %s: %v", c.Name, what, show(b.Ops[:si+1]), e), s.ctx(b, si, nil))
+	}
+}
+
+// byteStep executes step si and compares the projected real state with the byte array; false = stop the behaviour
+func (s *sess) byteStep(b *behaviour, si int, prevp *[]int) bool {
+	c := s.c
+	prev := *prevp
+	st := &b.Ops[si]
+	s.res.Evaluations++
+	s.res.Count("op:"+st.Op, 1)
+	rew := rewound(b.Ops[:si+1], c.Pre)
+	devs := map[[2]int]*dev{}
+	for i := range st.Devs {
+		devs[[2]int{st.Devs[i].Off, st.Devs[i].N}] = &st.Devs[i]
+	}
+	fail := func(what string, e error) bool {
+		s.res.Violate(s.kind+"."+what+":error", fmt.Sprintf("cfg %s: %s after %s: %v", c.Name, what, show(b.Ops[:si+1]), e), s.ctx(b, si, nil))
+		return false
+	}
+	var opErr error
+	switch st.Op {
+	case "append":
+		off, n, err := s.app.Append(s.bytesOf(atomRange(st.B, st.A)))
+		opErr = err
+		if err == nil && (int(off) != len(prev) || n != st.A) {
+			s.res.Violate(s.kind+".Append:returned-offset-differs-from-previous-size",
+				fmt.Sprintf("cfg %s: after %s Append returned (off %d, n %d), previous size %d, %d bytes given", c.Name, show(b.Ops[:si+1]), off, n, len(prev), st.A),
+				s.ctx(b, si, map[string]interface{}{"off": off, "n": n}))
+			return false
 		}
-		var opErr error
-		ok := true
-		switch st.Op {
-		case "append":
-			var off int64
-			var n int
-			opErr, ok = s.guard(b, si, "Append", func() (e error) { off, n, e = s.app.Append(s.bytesOf(atomRange(st.B, st.A))); return })
-			if ok && opErr == nil && (int(off) != len(prev) || n != st.A) {
-				s.res.Violate(s.kind+".Append:returned-offset-differs-from-previous-size",
-					fmt.Sprintf("cfg %s: after %s Append returned (off %d, n %d), previous size %d, %d bytes given", c.Name, show(b.Ops[:si+1]), off, n, len(prev), st.A),
-					s.ctx(b, si, map[string]interface{}{"off": off, "n": n}))
-				return
+	case "read":
+		if !s.readCheck(b, si, st.A, st.B, devs, rew) {
+			return false
+		}
+	case "setoffset":
+		opErr = s.app.SetOffset(int64(st.A))
+	case "flush":
+		opErr = s.app.Flush()
+	case "sync":
+		opErr = s.app.Sync()
+	case "discard":
+		opErr = s.app.DiscardUpto(int64(st.A))
+	case "switchro":
+		opErr = s.app.SwitchToReadOnlyMode()
+	case "reopen":
+		if opErr = s.app.Close(); opErr == nil {
+			s.app = nil
+			s.reopens++
+			s.app, opErr = s.open(s.path, c.AltOpts && s.reopens%2 == 1)
+		}
+	case "copy":
+		if !s.copyCheck(b, si, rew) {
+			return false
+		}
+	default:
+		vh.Fatalf("unknown op %q", st.Op)
+	}
+	if opErr != nil {
+		return fail(st.Op, opErr)
+	}
+	// projection after the step: Size / Offset / metadata
+	sz, err := s.app.Size()
+	if err != nil {
+		return fail("Size", err)
+	}
+	if off := s.app.Offset(); off != sz {
+		s.res.Violate(s.kind+".Offset:differs-from-Size", fmt.Sprintf("cfg %s: after %s Size()=%d Offset()=%d", c.Name, show(b.Ops[:si+1]), sz, off), s.ctx(b, si, nil))
+		return false
+	}
+	L := len(st.Ideal)
+	if int(sz) != L {
+		x := map[string]interface{}{"size": sz, "expected": L, "transcribed_code_size": st.Isize}
+		switch {
+		case st.Op == "reopen" && rew && c.Pre == 0 && int(sz) > L:
+			got, _ := s.content(st.Disc, int(sz))
+			s.res.Violate(sigReopen(s.kind), fmt.Sprintf("cfg %s: after %s Size()=%d and the appendable holds %v, the byte array is %v (size %d)", c.Name, show(b.Ops[:si+1]), sz, got, st.Ideal[st.Disc:], L), s.ctx(b, si, x))
+			if int(sz) != st.Isize {
+				s.res.DriftNote(fmt.Sprintf("reopen after rewind: transcribed code predicts size %d, real %d after %s", st.Isize, sz, show(b.Ops[:si+1])))
 			}
-		case "read":
-			if !s.readCheck(b, si, st.A, st.B, devs, rew) {
-				return
-			}
-		case "setoffset":
-			opErr, ok = s.guard(b, si, "SetOffset", func() error { return s.app.SetOffset(int64(st.A)) })
-		case "flush":
-			opErr, ok = s.guard(b, si, "Flush", func() error { return s.app.Flush() })
-		case "sync":
-			opErr, ok = s.guard(b, si, "Sync", func() error { return s.app.Sync() })
-		case "discard":
-			opErr, ok = s.guard(b, si, "DiscardUpto", func() error { return s.app.DiscardUpto(int64(st.A)) })
-		case "switchro":
-			opErr, ok = s.guard(b, si, "SwitchToReadOnlyMode", func() error { return s.app.SwitchToReadOnlyMode() })
-		case "reopen":
-			opErr, ok = s.guard(b, si, "Close", func() error { return s.app.Close() })
-			if ok && opErr == nil {
-				s.app = nil
-				s.reopens++
-				opErr, ok = s.guard(b, si, "Open", func() (e error) { s.app, e = s.open(s.path, c.AltOpts && s.reopens%2 == 1); return })
-			}
-		case "copy":
-			if !s.copyCheck(b, si, rew) {
-				return
+		case st.Op == "reopen" && c.Pre > 0 && int(sz) > len(prev):
+			// preallocated files: the size after re-opening is what the files hold; everything below the old end must be unchanged
+			got, _ := s.content(st.Disc, len(prev))
+			if eqInts(got, prev[st.Disc:]) {
+				s.res.DriftNote(fmt.Sprintf("preallocated reopen: transcribed code predicts size %d, real %d after %s", st.Isize, sz, show(b.Ops[:si+1])))
+			} else {
+				s.res.Violate(s.kind+".Open:bytes-below-old-size-changed", fmt.Sprintf("cfg %s: after %s bytes below the old size are %v, were %v", c.Name, show(b.Ops[:si+1]), got, prev[st.Disc:]), s.ctx(b, si, x))
 			}
 		default:
-			vh.Fatalf("unknown op %q", st.Op)
+			s.res.Violate(s.kind+"."+st.Op+":size-differs-from-byte-array", fmt.Sprintf("cfg %s: after %s Size()=%d, the byte array has %d bytes (transcribed code: %d)", c.Name, show(b.Ops[:si+1]), sz, L, st.Isize), s.ctx(b, si, x))
 		}
-		if !ok {
-			return
-		}
-		if opErr != nil {
-			fail(st.Op, opErr)
-			return
-		}
-		// projection after the step: Size / Offset / metadata
-		sz, err := s.app.Size()
-		if err != nil {
-			fail("Size", err)
-			return
-		}
-		if off := s.app.Offset(); off != sz {
-			s.res.Violate(s.kind+".Offset:differs-from-Size", fmt.Sprintf("cfg %s: after %s Size()=%d Offset()=%d", c.Name, show(b.Ops[:si+1]), sz, off), s.ctx(b, si, nil))
-			return
-		}
-		L := len(st.Ideal)
-		if int(sz) != L {
-			x := map[string]interface{}{"size": sz, "expected": L, "transcribed_code_size": st.Isize}
-			switch {
-			case st.Op == "reopen" && rew && c.Pre == 0 && int(sz) > L:
-				got, _ := s.content(st.Disc, int(sz))
-				s.res.Violate(sigReopen(s.kind), fmt.Sprintf("cfg %s: after %s Size()=%d and the appendable holds %v, the byte array is %v (size %d)", c.Name, show(b.Ops[:si+1]), sz, got, st.Ideal[st.Disc:], L), s.ctx(b, si, x))
-				if int(sz) != st.Isize {
-					s.res.DriftNote(fmt.Sprintf("reopen after rewind: transcribed code predicts size %d, real %d after %s", st.Isize, sz, show(b.Ops[:si+1])))
+		return false
+	}
+	if st.Isize != L {
+		s.res.DriftNote(fmt.Sprintf("transcribed code predicts size %d, real code and byte array %d after %s", st.Isize, L, show(b.Ops[:si+1])))
+	}
+	if md := s.app.Metadata(); !bytes.Equal(md, s.meta) {
+		s.res.Violate(s.kind+".Metadata:differs-from-creation", fmt.Sprintf("cfg %s: after %s Metadata()=%q, created with %q", c.Name, show(b.Ops[:si+1]), md, s.meta), s.ctx(b, si, nil))
+		return false
+	}
+	if s.app.CompressionFormat() != s.comp {
+		s.res.Violate(s.kind+".CompressionFormat:differs-from-creation", fmt.Sprintf("cfg %s: after %s CompressionFormat()=%d", c.Name, show(b.Ops[:si+1]), s.app.CompressionFormat()), s.ctx(b, si, nil))
+		return false
+	}
+	// read-back over the read domain of the spec (disc <= off <= L+RB, off+n <= L+RB+1): every pair while the domain
+	// is small, otherwise per offset the lengths at which the arithmetic changes (1, 2, up to / across the chunk end,
+	// up to / across the end of the array, the longest)
+	if s.variant == "probe" || si == len(b.Ops)-1 {
+		top := L + c.RB + 1
+		for off := st.Disc; off < top; off++ {
+			var ns []int
+			if top-st.Disc <= 14 {
+				for n := 1; off+n <= top; n++ {
+					ns = append(ns, n)
 				}
-			case st.Op == "reopen" && c.Pre > 0 && int(sz) > len(prev):
-				// preallocated files: the size after re-opening is what the files hold; everything below the old end must be unchanged
-				got, _ := s.content(st.Disc, len(prev))
-				if eqInts(got, prev[st.Disc:]) {
-					s.res.DriftNote(fmt.Sprintf("preallocated reopen: transcribed code predicts size %d, real %d after %s", st.Isize, sz, show(b.Ops[:si+1])))
-				} else {
-					s.res.Violate(s.kind+".Open:bytes-below-old-size-changed", fmt.Sprintf("cfg %s: after %s bytes below the old size are %v, were %v", c.Name, show(b.Ops[:si+1]), got, prev[st.Disc:]), s.ctx(b, si, x))
-				}
-			default:
-				s.res.Violate(s.kind+"."+st.Op+":size-differs-from-byte-array", fmt.Sprintf("cfg %s: after %s Size()=%d, the byte array has %d bytes (transcribed code: %d)", c.Name, show(b.Ops[:si+1]), sz, L, st.Isize), s.ctx(b, si, x))
-			}
-			return
-		}
-		if st.Isize != L {
-			s.res.DriftNote(fmt.Sprintf("transcribed code predicts size %d, real code and byte array %d after %s", st.Isize, L, show(b.Ops[:si+1])))
-		}
-		if md := s.app.Metadata(); !bytes.Equal(md, s.meta) {
-			s.res.Violate(s.kind+".Metadata:differs-from-creation", fmt.Sprintf("cfg %s: after %s Metadata()=%q, created with %q", c.Name, show(b.Ops[:si+1]), md, s.meta), s.ctx(b, si, nil))
-			return
-		}
-		if s.app.CompressionFormat() != s.comp {
-			s.res.Violate(s.kind+".CompressionFormat:differs-from-creation", fmt.Sprintf("cfg %s: after %s CompressionFormat()=%d", c.Name, show(b.Ops[:si+1]), s.app.CompressionFormat()), s.ctx(b, si, nil))
-			return
-		}
-		// full read-back over the read domain of the spec: every (off, n) with disc <= off <= L+RB, off+n <= L+RB+1
-		if s.variant == "probe" || si == len(b.Ops)-1 {
-			for off := st.Disc; off <= L+c.RB; off++ {
-				for n := 1; off+n <= L+c.RB+1; n++ {
-					if !s.readCheck(b, si, off, n, devs, rew) {
-						return
+			} else {
+				seen := map[int]bool{}
+				for _, n := range []int{1, 2, c.F - off%c.F, c.F - off%c.F + 1, L - off, L - off + 1, top - off} {
+					if n >= 1 && off+n <= top && !seen[n] {
+						seen[n] = true
+						ns = append(ns, n)
 					}
 				}
 			}
+			for _, n := range ns {
+				if !s.readCheck(b, si, off, n, devs, rew) {
+					return false
+				}
+			}
 		}
-		prev = st.Ideal
 	}
+	*prevp = st.Ideal
+	return true
 }
 
 // content reads [from, to) with one ReadAt
@@ -564,7 +593,7 @@ func (s *sess) replayEntries(b *behaviour) {
 	prevLen := c.Pre
 	disc := 0
 	lastSize, _ := s.app.Size()
-	for si := range b.Ops {
+	step := func(si int) bool {
 		st := &b.Ops[si]
 		rew := rewound(b.Ops[:si+1], c.Pre)
 		s.res.Evaluations++
@@ -596,7 +625,7 @@ func (s *sess) replayEntries(b *behaviour) {
 						s.res.Violate(sigCompOff, text, s.ctx(b, si, x))
 					} else {
 						s.res.Violate(s.kind+".Append:returned-offset-differs-from-previous-size", text, s.ctx(b, si, x))
-						return
+						return false
 					}
 				}
 				live = append(live, entry{abs: prevLen, atoms: atoms, real: off})
@@ -611,7 +640,7 @@ func (s *sess) replayEntries(b *behaviour) {
 			ro, isB := boundary(st.A)
 			if !isB {
 				s.res.Count("entry-mode:rewind-inside-entry-skipped", 1)
-				return
+				return false
 			}
 			opErr, ok = s.guard(b, si, "SetOffset", func() error { return s.app.SetOffset(ro) })
 			keep := live[:0]
@@ -643,28 +672,28 @@ func (s *sess) replayEntries(b *behaviour) {
 			// covered in byte mode
 		}
 		if !ok {
-			return
+			return false
 		}
 		if opErr != nil {
 			s.res.Violate(s.kind+"."+st.Op+":error", fmt.Sprintf("cfg %s compression %d: %s after %s: %v", c.Name, s.comp, st.Op, show(b.Ops[:si+1]), opErr), s.ctx(b, si, nil))
-			return
+			return false
 		}
 		sz, err := s.app.Size()
 		if err != nil {
 			s.res.Violate(s.kind+".Size:error", fmt.Sprintf("cfg %s: %v", c.Name, err), s.ctx(b, si, nil))
-			return
+			return false
 		}
 		if !mutated && sz != lastSize {
 			text := fmt.Sprintf("cfg %s compression %d: after %s Size()=%d, before the step %d", c.Name, s.comp, show(b.Ops[:si+1]), sz, lastSize)
 			switch {
 			case st.Op == "reopen" && rew && c.Pre == 0 && sz > lastSize:
 				s.res.Violate(sigReopen(s.kind), text, s.ctx(b, si, nil))
-				return
+				return false
 			case st.Op == "reopen" && c.Pre > 0 && sz > lastSize:
 				// preallocated: size from the files
 			default:
 				s.res.Violate(s.kind+"."+st.Op+":size-changed", text, s.ctx(b, si, nil))
-				return
+				return false
 			}
 		}
 		lastSize = sz
@@ -683,7 +712,7 @@ func (s *sess) replayEntries(b *behaviour) {
 				var k int
 				rerr, ok := s.guard(b, si, "ReadAt", func() (e2 error) { k, e2 = s.app.ReadAt(buf, e.real); return })
 				if !ok {
-					return
+					return false
 				}
 				s.res.Count("entry-reads", 1)
 				want := e.atoms[:minI(n, len(e.atoms))]
@@ -702,13 +731,20 @@ func (s *sess) replayEntries(b *behaviour) {
 						k2, e2 := s.app.ReadAt(buf2, e.real)
 						if (e2 == nil || e2 == io.EOF) && eqInts(s.atomsOf(buf2[:k2]), want) && (e2 == io.EOF) == wantEOF {
 							s.res.Violate(sigReadStale, text, s.ctx(b, si, x))
-							return
+							return false
 						}
 					}
 				}
 				s.res.Violate(s.kind+".ReadAt:entry-differs", text, s.ctx(b, si, x))
-				return
+				return false
 			}
+		}
+		return true
+	}
+	for si := range b.Ops {
+		si := si
+		if !s.stepGuard(b, si, func() bool { return step(si) }) {
+			return
 		}
 	}
 }
